@@ -92,8 +92,12 @@ def make_message(desc, rng):
 def msg_fields(m):
     """observable fields of a (decrypted or original) literal message"""
     lit = m._message
+    msg_ = m.message
     return {'content': bytes(lit._contents), 'filename': lit.filename, 'mtime': int(lit.mtime.timestamp()), 'format': lit.format,
-            'compression': int(m._compression), 'signatures': sorted(bytes(s).hex() for s in m.signatures)}
+            'compression': int(m._compression), 'signatures': sorted(bytes(s).hex() for s in m.signatures),
+            # the same through the public accessors
+            'api_filename': m.filename, 'api_compressed': m.is_compressed, 'api_sensitive': m.is_sensitive,
+            'api_message': (msg_.encode('utf-8', 'surrogateescape') if isinstance(msg_, str) else bytes(msg_)).hex()[:4000]}
 
 
 def ref_open(blob, secrets):
